@@ -228,6 +228,7 @@ COLOUR_ARGS = ("node_fc", "node_ec", "dyad_color", "edge_fc", "edge_ec")
 KINDS = ["scalar", "dict", "list", "array", "stat", "dictnum"]
 FLAGS = ("rescale_sizes", "dyad_style", "alpha", "node_shape")
 RESCALE = {"node_size": (5, 30), "node_lw": (0, 5), "dyad_lw": (1, 10)}   # documented defaults of `params`
+ZERO_OK = ("node_size", "node_lw", "dyad_lw")    # scalar sizes / widths for which 0 is a legitimate value
 
 
 def num_val(i):
@@ -293,6 +294,8 @@ def style_value(arg, kind, H, c):
     """materialise a style argument of the given shape (deterministic from the case)"""
     colour = arg in COLOUR_ARGS
     if kind == "scalar":
+        if c.get("zero_scalars") and arg in ZERO_OK:
+            return 0   # a size / width of zero is a valid value ("cannot contain negative values"): nothing visible, still drawn
         return {"node_size": 11, "node_lw": 2, "dyad_lw": 3}.get(arg, "tab:blue" if colour else 2)
     if kind in ("dict", "dictnum"):
         return {dec_id(k): v for k, v in dict_items(c, arg)}
@@ -539,6 +542,13 @@ def impl_draw(c):
             kw["node_labels"] = True
         if c["which"] != "draw_nodes":
             kw["hyperedge_labels"] = True
+        if c.get("label_kw"):
+            # documented keywords of the label functions, passed through **kwargs (one function at a time: draw() hands
+            # its **kwargs to both label functions, each of which rejects the other's keywords)
+            if c["which"] == "draw_nodes":
+                kw.update(font_size_nodes=7, font_color_nodes="red")
+            elif c["which"] in ("draw_hyperedges", "draw_simplices"):
+                kw.update(font_size_edges=7, font_color_edges="red")
     which = c["which"]
     plt.close("all")
     if c.get("no_ax"):
@@ -981,11 +991,15 @@ def draw_case(rng, cls, enc, which=None, hull=None, no_ax=None, auto_pos=None):
     dicts = gen_dicts(rng, c)
     if dicts:
         c["dicts"] = dicts
+    if any(c["style"].get(a) == "scalar" for a in ZERO_OK) and rng.random() < 0.35:
+        c["zero_scalars"] = True   # the scalar sizes / widths of the case are 0
     r = rng.random()
     if (auto_pos if auto_pos is not None else r < 0.06) and "hull" not in c:
         c["auto_pos"] = True    # pos=None: the default barycenter spring layout; the markers define the positions
     elif r < 0.13 and "hull" not in c:
         c["labels"] = True      # node_labels / hyperedge_labels (success, and the plan is unchanged)
+        if which != "draw" and rng.random() < 0.6:
+            c["label_kw"] = True  # with font_size_* / font_color_* keywords for the label function
     if no_ax if no_ax is not None else rng.random() < 0.2:
         c["no_ax"] = True       # ax=None: the current axes (the default of every draw function)
     return c
@@ -1043,9 +1057,9 @@ def shrink(c, cls_, budget=160):
     changed = True
     while changed and budget > 0:
         changed = False
-        for k in list(c.get("style", {})) + list(c.get("opts", {})) + [f for f in ("labels", "hull", "no_ax", "auto_pos") if c.get(f)]:
+        for k in list(c.get("style", {})) + list(c.get("opts", {})) + [f for f in ("zero_scalars", "label_kw", "labels", "hull", "no_ax", "auto_pos") if c.get(f)]:
             cand = json.loads(json.dumps(c))
-            (cand.get("style", {}).pop(k, None), cand.get("opts", {}).pop(k, None), cand.pop(k, None) if k in ("labels", "hull", "no_ax", "auto_pos") else None)
+            (cand.get("style", {}).pop(k, None), cand.get("opts", {}).pop(k, None), cand.pop(k, None) if k in ("zero_scalars", "label_kw", "labels", "hull", "no_ax", "auto_pos") else None)
             if cand["f"] == "draw":
                 cand = _fix(cand)
             budget -= 1
@@ -1128,7 +1142,7 @@ def run_cases(ctx, cases):
             for a, k in c.get("style", {}).items():
                 if isinstance(k, str) and k in KINDS:
                     ctx.stats[f"style:{a}:{k}"] += 1
-            for flag in ("hull", "auto_pos", "labels", "no_ax"):
+            for flag in ("hull", "auto_pos", "labels", "label_kw", "zero_scalars", "no_ax"):
                 if c.get(flag):
                     ctx.stats["draw:" + flag] += 1
                     ctx.stats[f"draw:{flag}:{c['which']}"] += 1
